@@ -120,3 +120,14 @@ CLAIMED["C16"] = dict(
         "lzma_decode are OUTSIDE (a slicing defect there, D1 in DESIGN.md, was observed by hand and is not reachable by CBMC). "
         "Stream Padding / concatenated .xz rules are under C05. xz/xzdec/lzmainfo CLI behaviour is outside.")
 NOT_APPLICABLE.pop("C16", None)
+CLAIMED["C10"] = dict(
+   text="Every allocation in the scenario may fail independently (nondeterministic allocator = all subsets of failing "
+        "allocations, not just the k-th): lzma_filters_copy, lzma_block_header_decode, decoder handles re-initialised "
+        "with another coder without lzma_end, lzma_index init/append/cat/dup, and lz_encoder init/re-init/end. Asserted: "
+        "MEM_ERROR/NULL exactly when an allocation failed, caller-owned objects unchanged on failure, no double free / use "
+        "after free / NULL dereference (CBMC pointer checks), and a ghost count plus --memory-leak-check show every block "
+        "is returned.",
+   note="Bounds: fixed short scenarios (see evidence). Index scenarios use typed object pools instead of exact-size heap "
+        "blocks. NOT covered: encoder handles (LZMA encoder init builds price tables), threaded coders' init, "
+        "lzma_str_to_filters, failures during lzma_code steady state, filter-chain update.")
+NOT_APPLICABLE.pop("C10", None)
